@@ -861,7 +861,18 @@ func (r *ruleState) onRestart(prev, snap *tables.Tables) {
 	s := r.s
 	// T14: only committed state survives, and all of it
 	if d := tables.Diff(prev, snap, false); len(d) > 0 {
-		s.violate("T14.restart_diff", P("C06"), "restart", "state after restart differs from the last committed state", strings.Join(d, "\n"))
+		// the property that owns the table is violated too (a lock that vanishes at a restart is
+		// taken from its holder, a schedule that vanishes stops firing, ...)
+		props := []string{"C06"}
+		for _, own := range [][2]string{{"locks[", "C09"}, {"schedules[", "C10"}, {"tasks[", "C07"}, {"callbacks[", "C05"}, {"promises[", "C01"}} {
+			for _, line := range d {
+				if strings.HasPrefix(line, own[0]) {
+					props = append(props, own[1])
+					break
+				}
+			}
+		}
+		s.violate("T14.restart_diff", props, "restart", "state after restart differs from the last committed state", strings.Join(d, "\n"))
 	}
 	s.Probes["restart_snapshot_compared"]++
 }
